@@ -122,6 +122,7 @@ def impl(c):
         "steps": count.count_steps(ns, include_note_types=types, same_beat_notes=mode, same_beat_minimum=c["min"]),
         "jumps": count.count_jumps(ns, include_note_types=types, same_beat_notes=mode),
         "hands": count.count_hands(ns, include_note_types=types, same_beat_notes=mode),
+        "hands_min": count.count_hands(ns, include_note_types=types, same_beat_notes=mode, same_beat_minimum=c["min"]),
         "mines": count.count_mines(ns),
         "holds": hr(count.count_holds),
         "rolls": hr(count.count_rolls),
@@ -171,7 +172,7 @@ def un_hr(a):
 
 def model(c, ans):
     return {"res": un_gres(ans[0]),
-            "counts": {"steps": un_cnt(ans[1]), "jumps": un_cnt(ans[2]), "hands": un_cnt(ans[3]), "mines": ans[4][1],
+            "counts": {"steps": un_cnt(ans[1]), "jumps": un_cnt(ans[2]), "hands": un_cnt(ans[3]), "hands_min": un_cnt(ans[1]), "mines": ans[4][1],
                        "holds": un_hr(ans[5]), "rolls": un_hr(ans[6]), "steps_default": un_cnt(ans[7])}}
 
 
@@ -244,7 +245,7 @@ def oracle(c, o):
         r = spec_groups(ns, head + "3", 1, True, c["ph"], c["pt"])
         return ["ok", len(r[1])] if r[0] == "ok" else r
     want_counts = {"steps": cnt(c["types"], c["mode"], c["min"]), "jumps": cnt(c["types"], c["mode"], 2), "hands": cnt(c["types"], c["mode"], 3),
-                   "mines": sum(n[3] == "M" for n in ns), "holds": hr("2"), "rolls": hr("4"), "steps_default": cnt(DEFAULT, 3, 1)}
+                   "hands_min": cnt(c["types"], c["mode"], c["min"]), "mines": sum(n[3] == "M" for n in ns), "holds": hr("2"), "rolls": hr("4"), "steps_default": cnt(DEFAULT, 3, 1)}
     for k, v in want_counts.items():
         if o["counts"][k] != v:
             return "count %s = %s, documented count is %s" % (k, o["counts"][k], v)
